@@ -66,7 +66,7 @@ func updateBody(secret *string, uid, gid *int) []byte {
 
 // lookup: a signed ListBuckets with the given credentials; true = authenticated.
 func lookup(cl *s3c.Client, ak, sk string) (accepted bool, resp *s3c.Resp) {
-	r := cl.With(ak, sk).Do(&s3c.Req{Method: "GET", Path: "/", FreshConn: false})
+	r := cl.With(ak, sk).Do(&s3c.Req{Method: "GET", Path: "/", FreshConn: false, Watchdog: 30 * time.Second})
 	return r.Err == nil && r.Status == 200, r
 }
 
@@ -109,10 +109,11 @@ type listUsers struct {
 }
 
 type world struct {
-	c    *ev.Ctx
-	env  *fx.Env
-	root *s3c.Client
-	seq  int
+	c      *ev.Ctx
+	env    *fx.Env
+	root   *s3c.Client
+	seq    int
+	broken bool // a lookup went unanswered: stop the history
 }
 
 func (w *world) secret() string {
@@ -151,6 +152,8 @@ func (w *world) judgeAccount(id, when, ak string, a *acct, oldSecrets []string) 
 				c.Violation(when+":deleted-or-absent-account-accepted", id, det(map[string]any{"secret": s, "resp": r.String()}))
 			} else if r.Err != nil {
 				c.Inconclusive("transport error in lookup")
+				w.broken = true
+				return
 			}
 		}
 		return
@@ -158,6 +161,7 @@ func (w *world) judgeAccount(id, when, ak string, a *acct, oldSecrets []string) 
 	ok, r := lookup(cl, ak, a.Secret)
 	if r.Err != nil {
 		c.Inconclusive("transport error in lookup")
+		w.broken = true
 		return
 	}
 	if !ok {
@@ -282,7 +286,7 @@ func laneSeq(c *ev.Ctx, id string, r *rand.Rand, steps int, cacheCfg string) {
 		return
 	}
 	defer env.Close()
-	w := &world{c: c, env: env, root: env.Client(0)}
+	w := &world{c: c, env: env, root: c17Client(env)}
 	if err := w.setupOpenBucket(); err != nil {
 		c.Inconclusive(err.Error())
 		return
@@ -292,7 +296,8 @@ func laneSeq(c *ev.Ctx, id string, r *rand.Rand, steps int, cacheCfg string) {
 	olds := map[string][]string{}
 	roles := []string{"user", "userplus", "admin"}
 	shape := []string{}
-	for n := 0; n < steps; n++ {
+	// (a gateway that stops answering lookups ends the history: every further step would wait for the watchdog)
+	for n := 0; n < steps && !w.broken; n++ {
 		ak := keys[r.Intn(len(keys))]
 		cur := model[ak]
 		x := r.Intn(10)
@@ -416,7 +421,7 @@ func laneSeq(c *ev.Ctx, id string, r *rand.Rand, steps int, cacheCfg string) {
 	w.judgeStore(id, "final", model)
 	// restart: everything must survive and still be judged the same
 	if err := env.Restart(0); err == nil {
-		w.root = env.Client(0)
+		w.root = c17Client(env)
 		for _, ak := range keys {
 			w.judgeAccount(id, "after-restart", ak, model[ak], olds[ak])
 		}
@@ -444,7 +449,7 @@ func laneGate(c *ev.Ctx, id, concurrentOp, probe string) {
 		return
 	}
 	defer env.Close()
-	w := &world{c: c, env: env, root: env.Client(0)}
+	w := &world{c: c, env: env, root: c17Client(env)}
 	if err := w.setupOpenBucket(); err != nil {
 		c.Inconclusive(err.Error())
 		return
@@ -460,12 +465,12 @@ func laneGate(c *ev.Ctx, id, concurrentOp, probe string) {
 		c.Inconclusive("restart: " + err.Error())
 		return
 	}
-	w.root = env.Client(0)
+	w.root = c17Client(env)
 	pol, _ := gate.HoldNth(1)
 	ctl.SetPolicy(pol)
 	ch := make(chan *s3c.Resp, 1)
 	go func() {
-		_, r := lookup(env.Client(0), ak, a.Secret)
+		_, r := lookup(c17Client(env), ak, a.Secret)
 		ch <- r
 	}()
 	h := ctl.WaitHeld(10 * time.Second)
@@ -609,7 +614,7 @@ func laneConc(c *ev.Ctx, id string, seed int64, race bool) {
 		return
 	}
 	defer env.Close()
-	root := env.Client(0)
+	root := c17Client(env)
 	keys := []string{"k1", "k2", "k3", "k4"}
 	hist := map[string][]hop{}
 	var mu sync.Mutex
@@ -633,7 +638,7 @@ func laneConc(c *ev.Ctx, id string, seed int64, race bool) {
 		go func(ci int) {
 			defer wg.Done()
 			r := rand.New(rand.NewSource(seed*977 + int64(ci)))
-			cl := env.Client(0)
+			cl := c17Client(env)
 			cl.DefaultWatchdog = 25 * time.Second
 			for n := 0; n < 14 && !wedged.Load(); n++ {
 				ak := keys[r.Intn(len(keys))]
@@ -702,7 +707,7 @@ func laneConc(c *ev.Ctx, id string, seed int64, race bool) {
 	if wedged.Load() {
 		// account requests stopped being answered. Is the gateway as a whole stuck (machine load, inconclusive)
 		// or only the account path, while a request that needs no account lookup is still served?
-		pc := env.Client(0)
+		pc := c17Client(env)
 		pc.DefaultWatchdog = 25 * time.Second
 		probe := pc.Do(&s3c.Req{Method: "GET", Path: "/", FreshConn: true})
 		again := pc.Admin("/list-users", "", nil)
